@@ -55,10 +55,10 @@ static inline void host(int kind, int i0, int n, const double * a, const double 
   const int cols  = hess ? n * n : n;
   Eigen::SparseMatrix<double> sp(n, cols);
   const auto & pat = pattern_of(kind);
-  // stored entries: host diagonal (extra entries) + published pattern at the block offset
+  // stored entries: host diagonal and a dense first row (extra entries, above the block when i0 > 0) + published pattern at the block offset
   for (int c = 0; c < cols; ++c) {
     for (int r = 0; r < n; ++r) {
-      bool in = (r == c);
+      bool in = (r == c) || (r == 0);      // host diagonal + a dense coupling row ABOVE the block (for i0 > 0)
       if (!hess) {
         const int pr = r - i0, pc = c - i0;
         if (pr >= 0 && pc >= 0 && pr < N && pc < N) {
@@ -180,8 +180,8 @@ def run_group(gname, tier="quick", seed=0, canary=False):
                     continue
                 n = N + ex
                 hc = n * n if hess else n
-                # number of stored entries: host diagonal + pattern block
-                stored = set((r, r) for r in range(n))
+                # number of stored entries: host diagonal + dense first row + pattern block
+                stored = set((r, r) for r in range(n)) | set((0, c) for c in range(hc))
                 for (r, c) in pat:
                     if hess:
                         blk, pc = c // N, c % N
